@@ -67,11 +67,13 @@ class Projection:
         self.pkgs = []        # first-seen order
         self.asm = set()
         self.real_asm = {"asm2"}
+        self.named_asm = set()
         self.obf_seen = {}
         self.compiled = {}    # top -> set of pkgs with a compile child
         self.kills = 0
         self.dropped = 0
         self.cmds = {}
+        self.keys = {}        # (top, pkg) -> GarbleActionID as first logged
 
 
 def project(events: list, kills: dict | None = None) -> Projection:
@@ -190,12 +192,21 @@ def project(events: list, kills: dict | None = None) -> Projection:
                 if ev == "compile-start":
                     P.obf_seen[p] = bool(e.get("obfuscate"))
                     out = dict(base, ev=ev, obf=bool(e.get("obfuscate")), key=e.get("key", ""))
+                    P.keys.setdefault((t, p), e.get("key", ""))
                 elif ev == "pkgcache-get":
-                    out = dict(base, ev=ev, hit=bool(e.get("hit")))
-                elif ev in ("pkgcache-dep", "pkgcache-dep-hit", "pkgcache-put"):
+                    out = dict(base, ev=ev, hit=bool(e.get("hit")), key=e.get("key", ""))
+                    P.keys.setdefault((t, p), e.get("key", ""))
+                elif ev in ("pkgcache-dep", "pkgcache-put"):
+                    out = dict(base, ev=ev, q=e.get("pkg", ""), key=e.get("key", ""))
+                    P.keys.setdefault((t, e.get("pkg", "")), e.get("key", ""))
+                    if e.get("pkg", "") not in P.pkgs:
+                        P.pkgs.append(e.get("pkg", ""))
+                elif ev == "pkgcache-dep-hit":
                     out = dict(base, ev=ev, q=e.get("pkg", ""))
                 elif ev in ("asmnames-put", "asmnames-get"):
                     out = dict(base, ev=ev)
+                    if ev == "asmnames-put":
+                        P.named_asm.add(p)
                 elif ev == "write-source":
                     d = dirpath.get(t, "\0")
                     out = dict(base, ev=ev, inshared=str(e.get("path", "")).startswith(d.rstrip("/") + "/"))
@@ -230,7 +241,7 @@ def project(events: list, kills: dict | None = None) -> Projection:
 
 
 def instance(P: Projection, golist: dict | None = None, cfg_of: dict | None = None, cold_gk: bool = True,
-             obf_pkgs=None, init_gk=(), inherit: dict | None = None) -> tuple:
+             obf_pkgs=None, init_gk=(), inherit: dict | None = None, linker_init: tuple | None = None) -> tuple:
     """-> (module text of PipelineTraceMC, cfg text)"""
     pkgs = list(P.pkgs)
     pset = set(pkgs)
@@ -239,12 +250,10 @@ def instance(P: Projection, golist: dict | None = None, cfg_of: dict | None = No
     trans = {p: sorted(set(golist.get(p, {}).get("deps", [])) & pset) for p in pkgs}
     reflect = [p for p in pkgs if "reflect" in golist.get(p, {}).get("deps", [])] if golist else []
     obf = sorted(obf_pkgs) if obf_pkgs is not None else sorted(p for p, v in P.obf_seen.items() if v)
-    cfg_of = cfg_of or {}
-    cfgs = {t: cfg_of.get(t, t) for t in P.tops}
-    compiled_by_cfg = {}
-    for t in P.tops:
-        compiled_by_cfg.setdefault(cfgs[t], set()).update(P.compiled.get(t, set()))
-    init_go = sorted({(p, c) for c, done in compiled_by_cfg.items() for p in pkgs if p not in done})
+    # identity of (configuration, source) per command and package: the GarbleActionID the command logged
+    ident = {t: {p: P.keys.get((t, p)) or f"unseen:{t}:{p}" for p in pkgs} for t in P.tops}
+    compiled_ids = {(p, ident[t][p]) for t in P.tops for p in P.compiled.get(t, set())}
+    init_go = sorted({(p, ident[t][p]) for t in P.tops for p in pkgs} - compiled_ids)
     link_needs = {}
     for lid in P.links:
         lp = P.link_pkg.get(lid, "")
@@ -271,11 +280,13 @@ MCTransDeps == {tla_fun(trans, tla_set)}
 MCAsm == {tla_set(P.asm)}
 MCReflect == {tla_set(reflect)}
 MCObf == {tla_set(obf)}
-MCCfgOf == {tla_fun(cfgs)}
+MCNamedAsm == {tla_set(P.named_asm)}
+MCCfgOf == {tla_fun(ident, tla_fun)}
 MCDirName == {tla_fun({t: P.dir_of.get(t, "nodir-" + t) for t in P.tops})}
 MCInherit == {tla_fun({t: inherit.get(t, "none") for t in P.tops})}
 MCInitGo == {pair_set(init_go)}
 MCInitGk == {pair_set(sorted(init_gk))}
+MCLinkerInit == {"{<<" + tla_str(linker_init[0]) + ", " + tla_str(linker_init[1]) + ">>}" if linker_init else "InitAny"}
 ====
 """
     cfg = f"""SPECIFICATION TraceSpec
@@ -284,7 +295,8 @@ CONSTANTS
   CopyMode = TRUE
   MaxKills = {P.kills}
   MaxDamage = 0
-  InitStates <- InitAny
+  InitStates <- MCLinkerInit
+  TmpRename = TRUE
   Tops <- MCTops
   TopSeq <- MCTopSeq
   LinkTop <- MCLinkTop
@@ -298,6 +310,7 @@ CONSTANTS
   MayFail = TRUE
   ReflectPkgs <- MCReflect
   ObfPkgs <- MCObf
+  NamedAsmPkgs <- MCNamedAsm
   InitGo <- MCInitGo
   InitGk <- MCInitGk
   DirName <- MCDirName
